@@ -985,7 +985,10 @@ CROSS_RULES = [
           'overriding a default name needs suppress_warnings'),
     Cross('name collisions', MHQ + 'validate_no_collisions', ['_D[_K1].intersection(_D[_K2])', '_D[_K1] & _D[_K2]'],
           'variables and user constants may not share a name', inline=1),
-    Cross('single answer', LGQ + 'schema_answers', 'isinstance(answers_tuple, list) and len(answers_tuple) == 1',
+    Cross('single answer', LGQ + 'schema_answers', ['isinstance(answers_tuple, list) and len(answers_tuple) == 1',
+                                                     'not isinstance(answers_tuple, tuple) and len(answers_tuple) == 1',
+                                                     'not isinstance(answers_tuple, tuple) and isinstance(answers_tuple, list) and len(answers_tuple) == 1',
+                                                     'isinstance(answers_tuple, list) and not isinstance(answers_tuple, tuple) and len(answers_tuple) == 1'],
           'a ListGrader needs more than one answer'),
     Cross('answers container type', LGQ + 'schema_answers', 'not isinstance(answers_tuple, tuple)',
           'answers must be a list or a tuple of lists (also enforced by the schema)', optional=True),
@@ -1208,7 +1211,7 @@ def full_guards_of(node, fn_node):
     return out
 
 
-def _judge_bypass(c, fi, R, conj):
+def _judge_bypass(c, fi, R, conj, rs=None):
     """('ok'|'violation'|'undecided', return stmt, guard text, witness text) for an early return that precedes a cross-rule check."""
     gs = full_guards_of(R, fi.node)
     gtext = ' and '.join(unparse(g) for g in gs) or 'always'
@@ -1220,6 +1223,17 @@ def _judge_bypass(c, fi, R, conj):
             if all(g is key[0] or (lib.names_in(g) - {'isinstance', 'len', 'list', 'tuple', 'dict', 'str'}) <= names for g in gs):
                 return ('ok', R, gtext, '')
     ca = _atoms(nf.conjuncts(conj))
+    if ca is None or _atoms(gs) is None:
+        # even with atoms this rule cannot read, a contradiction among the readable ones settles it: the early return cannot
+        # coincide with the rule's condition
+        known = []
+        implied = _implied_guards(rs, fi.node, ('return', 'raise')) if rs is not None else []
+        for part in list(nf.conjuncts(conj)) + list(gs) + [g_ for g_ in implied if not any(g_ is x for x in gs)]:
+            a1 = _atoms([part])
+            if a1:
+                known.extend(a1)
+        if known and not _compatible(known):
+            return ('ok', R, gtext, '')
     if ca is None and c.loop is not None and '_' not in c.loop.replace('self.', '').split('[')[0][:1] and not c.loop.startswith('_'):
         # a per-element check inside `for x in IT`: it applies whenever IT is non-empty (the elements are free)
         ca = [(c.loop, 'truthy', True)]
@@ -1414,6 +1428,38 @@ def _manager_exits(idx, fi):
     return exits, unknown
 
 
+def _always_exits(stmts):
+    for st in stmts:
+        if isinstance(st, (ast.Return, ast.Raise, ast.Continue, ast.Break)):
+            return True
+        if isinstance(st, ast.If) and st.orelse and _always_exits(st.body) and _always_exits(st.orelse):
+            return True
+    return False
+
+
+def _implied_guards(node, fn_node, kinds):
+    """Conditions that hold at node because an earlier `if C: return/raise/continue` of an enclosing block did not fire.
+    kinds: which exits count ('return' and/or 'raise')."""
+    out = []
+    child = node
+    for a in ancestors(node):
+        for field in ('body', 'orelse', 'finalbody'):
+            block = getattr(a, field, None)
+            if isinstance(block, list) and any(child is x for x in block):
+                for st in block:
+                    if st is child:
+                        break
+                    if isinstance(st, ast.If) and not st.orelse and _always_exits(st.body):
+                        last = st.body[-1]
+                        kind = 'raise' if isinstance(last, ast.Raise) else 'return'
+                        if kind in kinds:
+                            out.extend(nf.conjuncts(nf.negate(nf.canon(st.test))))
+        if a is fn_node:
+            break
+        child = a
+    return out
+
+
 def _sites_of(idx, fi):
     """Raise sites of a function: (owner, raise node, [(guards, loops)], handler class names, key).  A raise inside a loop
     over a literal tuple stands for one site per element (the loop variable replaced by the element)."""
@@ -1425,9 +1471,16 @@ def _sites_of(idx, fi):
         envs, loops = _literal_loop_envs(rs, fi.node)
         h = lib.in_handler(rs)
         hn = lib.handler_class_names(h) if h is not None else []
+        imp_ret = _implied_guards(rs, fi.node, ('return',))
+        imp_all = _implied_guards(rs, fi.node, ('return', 'raise'))
         for i, env in enumerate(envs):
-            g2 = [nf.canon(nf.subst(g, env)) for g in gs] if env else gs
-            sites.append((fi, rs, _expand_quantifiers(g2, loops), hn, (id(rs), i)))
+            alts = []
+            for extra in ([], imp_ret, imp_all):
+                g2 = [nf.canon(nf.subst(g, env)) for g in (list(extra) + gs)] if env else list(extra) + gs
+                for alt in _expand_quantifiers(g2, loops):
+                    if not any(len(alt[0]) == len(o[0]) and all(nf.equal(x, y) for x, y in zip(alt[0], o[0])) for o in alts):
+                        alts.append(alt)
+            sites.append((fi, rs, alts, hn, (id(rs), i)))
     return sites
 
 
@@ -1518,11 +1571,16 @@ def d5_cross(ctx, idx, fam):
                 if exact:
                     assigned[c.key] = exact[0]
                     used.add(exact[0][3])
+            unmatched_rules = [c for c in rules if c.key not in assigned and not c.optional]
+            unused_sites = {key for (o_, rs_, alts_, hn_, key) in sites if key not in used}
+            pairing_is_unique = len(unmatched_rules) == 1 and len(unused_sites) == 1
             for c in rules:
                 construct = 'cross-rule [%s] in %s' % (c.key, c.func.split('.', 1)[1].replace('mitxgraders.', ''))
                 exact = [assigned[c.key]] if c.key in assigned else []
                 diffs = []
-                if not exact:
+                if not exact and pairing_is_unique:
+                    # a "changed condition" verdict is only given when it is unambiguous which site belongs to the rule:
+                    # exactly one reviewed rule and exactly one raise site of the function are unexplained
                     _, diffs = candidates(c, True)
                 if exact:
                     owner, rs, conj, key_ = exact[0]
@@ -1545,7 +1603,7 @@ def d5_cross(ctx, idx, fam):
                                     "accepted" % c.what, where)
                         continue
                     byp = _bypassing_returns(owner, ocfg, rs)
-                    verdicts = [_judge_bypass(c, owner, R, conj) for R in byp] if conj is not None else []
+                    verdicts = [_judge_bypass(c, owner, R, conj, rs) for R in byp] if conj is not None else []
                     bad = [v for v in verdicts if v[0] == 'violation']
                     und = [v for v in verdicts if v[0] == 'undecided']
                     if bad:
@@ -1666,6 +1724,8 @@ def d5_cross(ctx, idx, fam):
         calls = lib.calls_named(vm.node, 'warn_if_override')
         seen = {}
         opaque_calls = []
+        unrolled = {}
+        literal_loops = set()
         for c in calls:
             if len(c.args) != 3:
                 opaque_calls.append(c)
@@ -1682,6 +1742,29 @@ def d5_cross(ctx, idx, fam):
                     for kk in ks:
                         seen.setdefault(kk, c)
                     continue
+            # `for key, defaults in ((<name>, <table>), ...): warn_if_override(self.config, key, defaults)`
+            if isinstance(k, ast.Name) and loop is not None and isinstance(loop.target, (ast.Tuple, ast.List)) \
+                    and all(isinstance(t_, ast.Name) for t_ in loop.target.elts) and k.id in [t_.id for t_ in loop.target.elts]:
+                it = lib.inline_locals(loop.iter, vm.node)
+                if isinstance(it, ast.Attribute) and isinstance(it.value, ast.Name) and it.value.id == 'self':
+                    kcls, vnode = idx.lookup_attr(mixin, it.attr)
+                    it = vnode if vnode is not None else it
+                rows_ok = isinstance(it, (ast.Tuple, ast.List)) and all(
+                    isinstance(row, (ast.Tuple, ast.List)) and len(row.elts) == len(loop.target.elts) for row in it.elts)
+                if rows_ok:
+                    ki = [t_.id for t_ in loop.target.elts].index(k.id)
+                    done = True
+                    for row in it.elts:
+                        if not (isinstance(row.elts[ki], ast.Constant) and isinstance(row.elts[ki].value, str)):
+                            done = False
+                            break
+                        env_ = {t_.id: v_ for t_, v_ in zip(loop.target.elts, row.elts)}
+                        c2 = nf.subst(c, env_)
+                        seen.setdefault(row.elts[ki].value, c)
+                        unrolled[id(c), row.elts[ki].value] = c2
+                    if done:
+                        literal_loops.add(id(loop))
+                        continue
             opaque_calls.append(c)
         for key, defaults in sorted(WARN_KEYS.items()):
             construct = "validate_math_config: warn_if_override('%s')" % key
@@ -1696,10 +1779,11 @@ def d5_cross(ctx, idx, fam):
                         "default %s with an entry of '%s'" % (key, listed, 'function' if defaults.endswith('functions') else 'constant', key),
                         vm.loc, expected="warn_if_override(self.config, '%s', self.%s)" % (key, defaults))
                 continue
-            ok = nf.classify('self.config', c.args[0]) == nf.MATCH and nf.classify('self.' + defaults, c.args[2]) == nf.MATCH
+            cc = unrolled.get((id(c), key), c)
+            ok = nf.classify('self.config', cc.args[0]) == nf.MATCH and nf.classify('self.' + defaults, cc.args[2]) == nf.MATCH
             anchor_nodes = lib.cfg_nodes_for(vcfg, c)
             loop = next((a_ for a_ in ancestors(c) if isinstance(a_, ast.For)), None)
-            if loop is not None and not isinstance(c.args[1], ast.Constant) and key_list(loop.iter):
+            if loop is not None and not isinstance(c.args[1], ast.Constant) and (id(loop) in literal_loops or key_list(loop.iter)):
                 # a loop over a non-empty literal list runs its body: it is enough that the loop itself is always reached
                 # and that the call is not skipped inside the body
                 body_ok = not any(isinstance(a_, (ast.If, ast.Try)) for a_ in ancestors(c) if a_ is not loop
@@ -1708,8 +1792,8 @@ def d5_cross(ctx, idx, fam):
             reach = vcfg.must_pass([vcfg.entry], anchor_nodes, exits='return')
             r.check(ok and reach, construct, 'against self.%s, on every path' % defaults,
                     "the override check for '%s' %s" % (key, 'is skipped on some path' if ok else 'compares with `%s` instead of self.%s'
-                                                          % (short(c.args[2]), defaults)), lib.loc(vm, c),
-                    expected="warn_if_override(self.config, '%s', self.%s)" % (key, defaults), found=short(c))
+                                                          % (short(cc.args[2]), defaults)), lib.loc(vm, c),
+                    expected="warn_if_override(self.config, '%s', self.%s)" % (key, defaults), found=short(cc))
         cols = lib.calls_named(vm.node, 'validate_no_collisions')
         if cols:
             keys = lib.get_kw(cols[0], 'keys', 1)
@@ -1993,7 +2077,8 @@ def d6_helpers(ctx, idx, fam):
         else:
             r.undecided('number_range_alternate [result]', 'not recognised', alt.loc)
         # ListOfType / TupleOfType: wrap singletons, at least one element
-        for helper, container, wrapped in (('ListOfType', 'list', '[_X]'), ('TupleOfType', 'tuple', '(_X,)')):
+        for helper, container, wrapped in (('ListOfType', 'list', ['[_X]', 'list([_X])', 'list((_X,))']),
+                                           ('TupleOfType', 'tuple', ['(_X,)', 'tuple([_X])', 'tuple((_X,))'])):
             f = idx.func(VFQ + helper + '.<locals>.func')
             param = f.params[0]
             wraps = False
@@ -2003,8 +2088,43 @@ def d6_helpers(ctx, idx, fam):
                         if isinstance(s, ast.Assign) and isinstance(s.targets[0], ast.Name) and s.targets[0].id == param and \
                                 nf.classify(wrapped, s.value, {'_X': ast.Name(id=param, ctx=ast.Load())}) == nf.MATCH:
                             wraps = True
-            r.check(wraps, '%s [singleton]' % helper, 'a single value is wrapped into a %s' % container,
-                    '%s no longer wraps a single value into a %s: the documented single-value form is refused' % (helper, container), f.loc)
+            outer_w = idx.func(VFQ + helper)
+            wscopes = [f, outer_w]
+            for base_f in (f, outer_w):
+                for h_ in _followed_callees(idx, base_f, set()):
+                    if h_ not in wscopes:
+                        wscopes.append(h_)
+            if not wraps:
+                for sf in wscopes:
+                    for n in walk_own(sf.node):
+                        if not isinstance(n, ast.If):
+                            continue
+                        for pname in sorted(set(sf.params) | lib.names_in(n.test)):
+                            bx = {'_P': ast.Name(id=pname, ctx=ast.Load())}
+                            lit = nf.classify('not isinstance(_P, %s)' % container, n.test, dict(bx)) == nf.MATCH
+                            b2 = dict(bx)
+                            gen = nf.classify('not isinstance(_P, _C)', n.test, b2) == nf.MATCH and isinstance(b2.get('_C'), ast.Name) \
+                                and b2['_C'].id in sf.params
+                            for st in n.body:
+                                if not (isinstance(st, ast.Assign) and isinstance(st.targets[0], ast.Name) and st.targets[0].id == pname):
+                                    continue
+                                if lit and nf.classify(wrapped, st.value, {'_X': ast.Name(id=pname, ctx=ast.Load())}) == nf.MATCH:
+                                    wraps = True
+                                if gen and nf.classify('%s([_P])' % b2['_C'].id, st.value, dict(bx)) == nf.MATCH:
+                                    # the container type is a parameter of the shared helper: this helper must be called with it
+                                    cpos = sf.params.index(b2['_C'].id)
+                                    for caller in (f, outer_w):
+                                        for c_ in lib.calls_named(caller.node, sf.name):
+                                            if len(c_.args) > cpos and isinstance(c_.args[cpos], ast.Name) and c_.args[cpos].id == container:
+                                                wraps = True
+            if wraps:
+                r.ok('%s [singleton]' % helper, 'a single value is wrapped into a %s' % container, f.loc)
+            elif len(wscopes) > 2:
+                r.undecided('%s [singleton]' % helper, 'wrapping of a single value not recognised (helpers %s)'
+                            % [x.name for x in wscopes[2:]], f.loc)
+            else:
+                r.violation('%s [singleton]' % helper, '%s no longer wraps a single value into a %s: the documented single-value form is '
+                            'refused' % (helper, container), f.loc)
             # the schema may be built at validation time (inner function), once in the enclosing function, or by a private helper
             outer_f = idx.func(VFQ + helper)
             scopes = [f, outer_f]
@@ -2113,12 +2233,35 @@ def d6_helpers(ctx, idx, fam):
         rets = lib.returns_of(ps.node)
         ends = [n for n in walk_own(ps.node) if isinstance(n, ast.If) and nf.classify("_W.endswith('%')", n.test) == nf.MATCH]
         inside = ends and all(any(rt is x for s_ in ends[0].body for x in ast.walk(s_)) for rt in rets)
-        if inside and rets:
+        flow_ok = False
+        if ends and rets and not inside:
+            # the value returned is a local that only receives a (non-None) value under the suffix test, and a
+            # `if V is None: raise` dominates the return
+            flow_ok = True
+            for rt in rets:
+                vs_ = [n_ for n_ in lib.names_in(rt.value) if n_ in lib.local_env(ps.node) or lib.assigned_value(ps.node, n_)]
+                good_v = False
+                for vname in vs_:
+                    assigns = [st for st in walk_own(ps.node) if isinstance(st, ast.Assign) and any(
+                        isinstance(t, ast.Name) and t.id == vname for t in st.targets)]
+                    real = [st for st in assigns if not (isinstance(st.value, ast.Constant) and st.value.value is None)]
+                    under = all(any(st is x for e_ in ends for b_ in e_.body for x in ast.walk(b_)) for st in real)
+                    guards_none = [n for n in walk_own(ps.node) if isinstance(n, ast.If) and nf.classify('%s is None' % vname, n.test) == nf.MATCH
+                                   and _always_exits(n.body)]
+                    if real and under and guards_none and pcfg.dominates(
+                            [x for g_ in guards_none for x in pcfg.nodes_of(g_) if x.kind == 'test'] or
+                            [x for g_ in guards_none for x in pcfg.nodes_of(g_)], pcfg.nodes_of(rt)):
+                        good_v = True
+                if not good_v:
+                    flow_ok = False
+        if (inside and rets) or flow_ok:
             r.ok('PercentageString [suffix]', "only strings ending in '%' are accepted", ps.loc)
         elif suffix_tests:
             if any(f_ is not ps for f_, n in suffix_tests) or not ends:
                 r.ok('PercentageString [suffix]', "the '%%' suffix is tested (in %s)" % suffix_tests[0][0].name, lib.loc(suffix_tests[0][0], suffix_tests[0][1]),
                      nontrivial=False)
+            elif helpers:
+                r.undecided('PercentageString [suffix]', "cannot see that every accepted value passed the '%' suffix test", ps.loc)
             else:
                 r.violation('PercentageString [suffix]', "a value is returned as a valid percentage on a path that skips the check that it "
                             "ends in '%'", ps.loc)
@@ -2593,11 +2736,17 @@ def d7_answers(ctx, idx, fam):
         # ListGrader.schema_answers: list -> tuple of lists; stored back
         ls = idx.func(LGQ + 'schema_answers')
         p0 = ls.params[1]
-        wraps = [s for s in walk_own(ls.node) if isinstance(s, ast.Assign) and isinstance(s.targets[0], ast.Name) and s.targets[0].id == p0
-                 and nf.classify('(%s,)' % p0, s.value) == nf.MATCH]
-        good = bool(wraps) and any(nf.classify('isinstance(%s, list)' % p0, g) == nf.MATCH for g in guards_of(wraps[0], ls.node))
-        r.check(good, 'ListGrader.schema_answers [tuple form]', 'a single list of answers becomes a one-element tuple',
-                'a list of answers is no longer wrapped into a tuple of lists', ls.loc)
+        run_ = _ShapeRun(ls, p0)
+        run_.run(ls.node.body, 'list2+')
+        outs = run_.outs
+        if outs == {'tuple1+'}:
+            r.ok('ListGrader.schema_answers [tuple form]', 'a single list of answers becomes a one-element tuple', ls.loc)
+        elif 'list2+' in outs:
+            r.violation('ListGrader.schema_answers [tuple form]', 'a list of answers is returned as it is instead of being wrapped into a '
+                        'tuple of lists: config["answers"] is not in the canonical form', ls.loc, expected='(answers,)')
+        else:
+            r.undecided('ListGrader.schema_answers [tuple form]', 'shape returned for a list of answers not recognised: %s' % sorted(map(str, outs)),
+                        ls.loc)
         li = idx.func(LGQ + '__init__')
         st = [s for s in walk_own(li.node) if isinstance(s, ast.Assign) and nf.config_key(s.targets[0]) == 'answers']
         r.check(len(st) == 1 and isinstance(st[0].value, ast.Call) and nf.callee_name(st[0].value) == 'schema_answers',
@@ -2801,6 +2950,17 @@ class _ShapeRun(object):
                     return {'tuple1+'}
                 if isinstance(v, ast.List) and len(v.elts) == 1 and self.is_p(v.elts[0]):
                     return {'list1'}
+                if isinstance(v, ast.IfExp):
+                    t = self.tv(v.test, sh)
+                    outs = set()
+                    for take, e in ((True, v.body), (False, v.orelse)):
+                        if t is (not take):
+                            continue
+                        if isinstance(e, ast.Tuple) and len(e.elts) == 1 and self.is_p(e.elts[0]):
+                            outs.add('tuple1+')
+                        else:
+                            outs.add(self.ret_shape(e, sh) or 'other')
+                    return outs
                 return {self.ret_shape(v, sh) or 'other'}
             return {sh}
         if isinstance(st, (ast.FunctionDef, ast.ClassDef, ast.Pass, ast.Import, ast.ImportFrom, ast.Global, ast.Nonlocal)):
@@ -3050,6 +3210,15 @@ BENIGN = [
            "        collision_keys = ['variables', 'user_constants']\n        for key in ['variables', 'numbered_vars', 'user_constants']:\n            warn_if_override(self.config, key, self.default_variables)\n        warn_if_override(self.config, 'user_functions', self.default_functions)\n        validate_no_collisions(self.config, keys=collision_keys)\n"),
     Benign('C20j-corrected-single-subgrader-check-per-group', LG, "        if not self.subgrader_list and not isinstance(self.config['subgraders'], ListGrader):\n            msg = \"A ListGrader with groupings must have a ListGrader subgrader \" + \\\n                  \"or a list of subgraders\"\n            raise ConfigError(msg)\n",
            "        for group in self.grouping:\n            if not self.subgrader_list and not isinstance(self.config['subgraders'], ListGrader):\n                raise ConfigError(\"A ListGrader with groupings must have a ListGrader subgrader or a list of subgraders\")\n"),
+    Benign('grouping-early-return-for-single-subgrader', LG,
+           "        if self.subgrader_list:\n            if len(self.grouping) != len(self.config['subgraders']):\n                raise ConfigError(\"Number of subgraders and number of groups are not equal\")",
+           "        if not self.subgrader_list:\n            return\n        if True:\n            if len(self.grouping) != len(self.config['subgraders']):\n                raise ConfigError(\"Number of subgraders and number of groups are not equal\")"),
+    Benign('override-checks-from-table', MH,
+           "        warn_if_override(self.config, 'variables', self.default_variables)\n        warn_if_override(self.config, 'numbered_vars', self.default_variables)\n        warn_if_override(self.config, 'user_constants', self.default_variables)\n        warn_if_override(self.config, 'user_functions', self.default_functions)\n",
+           "        for key, defaults in (('variables', self.default_variables), ('numbered_vars', self.default_variables),\n                              ('user_constants', self.default_variables), ('user_functions', self.default_functions)):\n            warn_if_override(self.config, key, defaults)\n"),
+    Benign('answers-coerced-by-conditional-expression', LG,
+           "            elif not answers_tuple:  # empty list\n                # Nothing further to check here. This must be a nested grader, which will\n                # be called upon to check answers again a bit later.\n                return tuple()\n            answers_tuple = (answers_tuple,)",
+           "            answers_tuple = (answers_tuple,) if answers_tuple else tuple()"),
     Benign('log-in-init', BASE, "        # Validate the configuration\n        self.config = self.validate_config(use_config)",
            "        _n = len(use_config) if isinstance(use_config, dict) else 0\n        self.config = self.validate_config(use_config)"),
 ]
